@@ -211,6 +211,22 @@ func dependent(a, b pending) bool {
 	return a.obj == b.obj
 }
 
+// LiveLibraryThreads returns the number of goroutines spawned by the code under
+// test (through a `go` statement) that have not finished yet.
+func LiveLibraryThreads() int {
+	s := S
+	if s == nil {
+		return 0
+	}
+	n := 0
+	for _, t := range s.threads {
+		if t.library && !t.done {
+			n++
+		}
+	}
+	return n
+}
+
 // CurrentThread returns the id of the running logical thread (-1 outside).
 func CurrentThread() int {
 	s := S
